@@ -32,8 +32,8 @@ RULE = (
 TOLERANCES = {"everything": "bitwise / exact equality (OpenCV's RNG re-seeded before each colour-correction evaluation)"}
 ASSUMPTIONS = ["files are written to a per-run temporary directory that is removed afterwards", "lossless formats: PNG (8 bit) and TIFF (16 bit), as documented in OpticalImage.write"]
 FLOORS = {
-    "quick": {"npz_roundtrip": 250, "bytes_roundtrip": 150, "optical_write_read": 60, "correction_roundtrip": 150, "estimator_regions_compared": 100, "correction_path_reused": 200, "caller_config_edited_after_construction": 40, "curvature_crop_points_typed": 6, "curvature_resize_factor": 20, "curvature_interpolation_order": 20, "optical_image_converted_before_saving": 2, "date_set_after_construction": 5},
-    "thorough": {"npz_roundtrip": 3000, "bytes_roundtrip": 1800, "optical_write_read": 700, "correction_roundtrip": 1700, "estimator_regions_compared": 1000, "correction_path_reused": 2000, "caller_config_edited_after_construction": 400, "curvature_crop_points_typed": 60, "curvature_resize_factor": 200, "curvature_interpolation_order": 200, "optical_image_converted_before_saving": 100, "date_set_after_construction": 100},
+    "quick": {"files_read_in_given_order": 16, "write_with_compression_option": 15, "npz_roundtrip": 250, "bytes_roundtrip": 150, "optical_write_read": 60, "correction_roundtrip": 150, "estimator_regions_compared": 100, "correction_path_reused": 200, "caller_config_edited_after_construction": 40, "curvature_crop_points_typed": 6, "curvature_resize_factor": 20, "curvature_interpolation_order": 20, "optical_image_converted_before_saving": 2, "date_set_after_construction": 5},
+    "thorough": {"files_read_in_given_order": 160, "write_with_compression_option": 200, "npz_roundtrip": 3000, "bytes_roundtrip": 1800, "optical_write_read": 700, "correction_roundtrip": 1700, "estimator_regions_compared": 1000, "correction_path_reused": 2000, "caller_config_edited_after_construction": 400, "curvature_crop_points_typed": 60, "curvature_resize_factor": 200, "curvature_interpolation_order": 200, "optical_image_converted_before_saving": 100, "date_set_after_construction": 100},
 }
 SHARD_TIMEOUT = {"quick": 1500, "thorough": 7200}
 
@@ -170,11 +170,17 @@ def run_shard(spec, R):
         cspace = ["RGB", "RGB", "BGR"][n % 3]
         arr = rng.integers(0, np.iinfo(depth).max, size=shape + (3,), endpoint=True).astype(depth)
         img = darsia.OpticalImage(arr.copy(), dimensions=[1.0, 2.0], color_space=cspace)
-        path = tmp / (f"w{n}.png" if depth == np.uint8 else f"w{n}.tif")
-        case = {"shape": list(shape), "depth": np.dtype(depth).name, "color_space": cspace, "file": path.suffix}
+        # lossless formats: png and tif for 8-bit data, tif (and png) for 16-bit data; the documented png compression
+        # level 0..9 may accompany any of them
+        suffix = [".png", ".tif", ".tiff", ".png"][int(rng.integers(0, 4))] if depth == np.uint8 else [".tif", ".tif", ".tiff", ".png"][int(rng.integers(0, 4))]
+        path = tmp / f"w{n}{suffix}"
+        wkw = {"compression": int(rng.integers(0, 10))} if rng.random() < 0.5 else {}
+        if wkw:
+            R.count("write_with_compression_option")
+        case = {"shape": list(shape), "depth": np.dtype(depth).name, "color_space": cspace, "file": path.suffix, "write_options": dict(wkw)}
         before = snap(img)
         with quiet():
-            ok, _ = R.guarded("write", lambda: img.write(path))
+            ok, _ = R.guarded("write", lambda: img.write(path, **wkw))
         if not ok:
             continue
         R.check(snap(img) == before, "write_leaves_image_untouched", case)
@@ -188,6 +194,42 @@ def run_shard(spec, R):
                 lambda: {**case, "max_diff": float(np.max(np.abs(back.img - exp))) if back.img.shape == exp.shape else "shape"}, group=f"{np.dtype(depth).name}/{cspace}")
         R.sig(["write", np.dtype(depth).name, cspace, list(shape)], True, cls=f"write/{np.dtype(depth).name}/{cspace}")
         os.remove(path)
+
+    # ============================ several written images read back as one series: slice k carries the colours of the
+    # k-th file handed to the reader (names with running numbers, without zero padding, or in any other given order)
+    for n in range(max(1, spec["n_write"] // 3)):
+        if not R.want(["write_list", n]):
+            continue
+        rng = rng_for(spec["seed"], "C18", 900 + spec["shard"], n)
+        shape = (int(rng.integers(2, 20)), int(rng.integers(2, 20)))
+        cnt = int(rng.integers(2, 5))
+        start = int(rng.choice([8, 9, 98, 1]))
+        names = [[f"l{n}_frame_{start + k}.png" for k in range(cnt)], [f"l{n}_{'zyxw'[k]}_{k}.tif" for k in range(cnt)], [f"l{n}_f{k:03d}.png" for k in range(cnt)]][n % 3]
+        arrs = [rng.integers(0, 255, size=shape + (3,), endpoint=True).astype(np.uint8) for _ in range(cnt)]
+        paths = [tmp / nm for nm in names]
+        okw = True
+        for a_, p_ in zip(arrs, paths):
+            with quiet():
+                ok1, _ = R.guarded("write", lambda: darsia.OpticalImage(a_.copy(), dimensions=[1.0, 2.0], color_space="RGB").write(p_))
+            okw &= ok1
+        if not okw:
+            continue
+        times = [float(10 * k) for k in range(cnt)]
+        as_str = bool(n % 2)
+        with quiet():
+            ok, ser = R.guarded("imread_optical", lambda: darsia.imread([str(p_) for p_ in paths] if as_str else list(paths), time=list(times), dimensions=[1.0, 2.0]))
+        if ok:
+            good = bool(ser.series) and ser.time_num == cnt and ser.time == times
+            found = []
+            if good:
+                for k in range(cnt):
+                    fr = ser.time_slice(k).img
+                    found.append([j for j in range(cnt) if np.array_equal(fr, skimage.img_as_float(arrs[j]))])
+                good = all(f == [k] for k, f in enumerate(found))
+            R.check(good, "files_read_in_given_order", lambda: {"names": names, "paths_as_str": as_str, "slice_k_holds_file": found}, group=["running_numbers", "reverse_alphabetical", "zero_padded"][n % 3])
+        for p_ in paths:
+            if p_.exists():
+                os.remove(p_)
 
     # ========================================================== corrections
     def _call(c, x):
